@@ -345,6 +345,7 @@ SS_NEUTRAL = [f for f in SS_RICH if f not in ("striptags", "e", "escape", "force
 BLOCK_RICH = ["capitalize", "lower", "upper", "title", "trim", "string", "e", "escape", "forceescape", "urlencode", "center", "indent",
               "truncate", "wordwrap", "replace", "format", "reverse", "first", "last", "indent", "replace", "truncate"]
 BLOCK_SPEC = {"wordwrap": _spec("width:w? break_long_words:b?")}
+MARKUP_DROPPERS = ("title", "wordwrap", "urlencode", "first", "last", "pprint", "striptags")
 N1_FILTERS = ["default", "d", "join", "wordwrap", "striptags"]
 N1_SPEC = {"default": _spec("default_value:s boolean:b?"), "d": _spec("default_value:s boolean:b?"), "join": _spec("d:s"),
            "wordwrap": _spec("width:w break_long_words:b wrapstring:s")}
@@ -357,9 +358,11 @@ def n1_class(templates):
     for n in walk(templates):
         if n[0] in ("filter", "setblock") and len(n) >= 3:
             chain = n[1] if n[0] == "filter" else n[2]
-            for name, args, kwargs in chain:
+            for i, (name, args, kwargs) in enumerate(chain):
                 if name in ("striptags", "batch", "slice", "pprint"):
                     return True
+                if i and chain[i - 1][0] in MARKUP_DROPPERS and (args or kwargs):
+                    return True  # title|replace(a, x): the first filter returned a plain string, the second inserts x raw
                 if name in ("default", "d") and (args or kwargs) and (args or [kwargs[0][1]])[0] != ["s", "-"]:
                     return True
                 if name == "join" and (args or kwargs):
@@ -778,7 +781,7 @@ class _Gen:
                  ("caller", 5 if lex.caller is not None and (self.neutral or lex.macro_kind == "u") else 0),
                  ("libvar", 2 if any(d["hi"] for d in lex.libs.values()) else 0)]
         if self.neutral:
-            table += [("self", 3 if lex.blocks else 0), ("super", 4 if lex.super_ok else 0), ("module", 2 if lex.libs else 0)]
+            table += [("self", 3 if lex.blocks else 0), ("super", 4 if lex.super_ok else 0)]
         else:
             table += [("urlize", 6), ("xmlattr", 5), ("tojson", 5)]
         if not any(w for _, w in table):
@@ -797,8 +800,6 @@ class _Gen:
             return ["call", ["attr", ["v", "self"], self.pick(lex.blocks)], [], []]
         if k == "super":
             return ["call", ["v", "super"], [], []]
-        if k == "module":
-            return ["v", self.pick(sorted(lex.libs))]
         if k == "urlize":
             args, kwargs = self.filter_args(lex, "urlize", 1)
             return ["f", "urlize", self.lo_s(lex, 1), args, kwargs]
@@ -855,6 +856,10 @@ class _Gen:
         return ["text", self.pick(TEXTS)]
 
     def out(self, lex):
+        if self.neutral and lex.libs and self.chance(1, 8):
+            # a module object is only ever printed directly (TemplateModule.__html__); `lib ~ x`, `x + lib`, join with a
+            # module and lib|string turn it into a plain string first (finding N4 of c16.py)
+            return ["out", ["v", self.pick(sorted(lex.libs))]]
         if lex.emit_hi and self.chance(2, 5):
             return ["out", self.hi_s(lex, 2)]
         return ["out", self.lo_s(lex, 2)]
@@ -867,6 +872,11 @@ class _Gen:
         n = self.weighted([(1, 5), (2, 2)])
         out = []
         for _ in range(n):
+            if out and out[-1][0] in MARKUP_DROPPERS and not neutral_only:
+                # after a filter that returns a plain string for a safe one, an argument-inserting filter would emit its
+                # arguments raw (N1): only argument-free filters may follow
+                out.append([self.pick(("upper", "lower", "capitalize", "trim", "string", "e", "forceescape", "reverse")), [], []])
+                continue
             if neutral_only:
                 name = self.pick(NEUTRAL_BLOCK_FILTERS + ("default",))
                 out.append([name, [["s", "-"], ["b", True]] if name == "default" else [], []])
